@@ -123,9 +123,10 @@ Section SpecInterp.
           | None => None
           | Some gr =>
               if has_ent e (ents gr) then
-                let st1 := s_bump_act (s_log st (ECall c a)) c in
+                let saved := spins st in
+                let st1 := s_bump_act (s_log (s_set_pins st (g :: saved)) (ECall c a)) c in
                 match rec st1 (behav c (s_get_act st1 c)) with
-                | Some st2 => s_invoke st2 g rest a
+                | Some st2 => s_invoke (s_set_pins st2 saved) g rest a
                 | None => None
                 end
               else s_invoke st g rest a
@@ -213,11 +214,7 @@ Section SpecInterp.
               match s_get_group st g with
               | None => None
               | Some gr =>
-                  let saved := spins st in
-                  match s_invoke (s_set_pins st (g :: saved)) g (ents gr) a with
-                  | Some st1 => Some (s_set_pins st1 saved)
-                  | None => None
-                  end
+                  s_invoke st g (ents gr) a
               end
           end
       | ForEach l =>
